@@ -87,7 +87,7 @@ pub fn gen(rng: &mut Rng, tier: &str) -> String {
     if rng.chance(1, 60) {
         // one k-mer observed more than 2^20 times (or around 2^16): past any batch a summarizer may work in (cheap on the crate's side)
         let nobs = if rng.chance(2, 3) { (1usize << 20) + *rng.pick(&[1usize, 1, 2, 3, 10, 4000]) } else { *rng.pick(&[65535usize, 65536, 65537, 131073]) };
-        let summ = if rng.chance(1, 2) { format!("set:{}", *rng.pick(&[1usize, 2, 3, 5, 50, 6000])) } else { format!("count:{}", *rng.pick(&[1usize, 3, 65535, 65536])) };
+        let summ = if rng.chance(1, 2) { format!("set:{}", *rng.pick(&[1usize, 2, 3, 5, 50, 6000, 65535, 65536, 70000, 1048577])) } else { format!("count:{}", *rng.pick(&[1usize, 3, 65535, 65536])) };
         return format!("C05 deep {} {} {} {} {} {}", *rng.pick(&[4usize, 8, 16, 31, 32, 48]), rng.below(4), nobs, rng.below(2), summ, rng.below(3));
     }
     let k = pick_k(rng, tier);
